@@ -1,11 +1,186 @@
+/-
+Driver of C15: runs `Model/Cache.lean` on the history blocks written by harness/src/props/c15.rs.
+
+  begin [d:<b>] [<type>:<b>]…      b = posMin,posMax,negMin,negMax  (ns, `-` = None); per-type
+                                   tokens in the order of the `with_query_type_ttl_bounds` calls
+  ins <q> <t> pos <an> <au> <ad>    sections: `-` or `type:ttl:pid,…`
+  ins <q> <t> neg <rcode> <nttl|-> <soa|-> <auth|-|e> <ns|-|e>   ns = `rec/glue+glue;rec/…`
+  ins <q> <t> err <kind>
+  get <q> <t>
+  clear | clearq <q>
+  cclookup <q> <result as for ins>  caching-client step (each one 1 ns after the last): `hit` if served
+                                    from the cache, else `miss` and the upstream result is inserted
+                                    (`neg` = a response message with that rcode and SOA, MINIMUM 60)
+  end
+  fromresp <rcode> <tc> <ans> <match> <soa_ttl|-> <minimum>   `DnsError::from_response` (outside blocks)
+  realtime <ms>                     implementation-only line
+  q = <id>[u]/<type>   (`u`: the harness uses an upper-case spelling of the same name)
+-/
 import HickoryVerif.Drv.Proto
+import HickoryVerif.Model.Cache
 
 namespace HickoryVerif.Drv.C15
-open HickoryVerif HickoryVerif.Drv
+open HickoryVerif HickoryVerif.Drv HickoryVerif.Cache
 
-abbrev State := Unit
-def init : State := ()
+structure State where
+  cfg : TtlConfig := {}
+  st : Cache.State := []
+  /-- caching-client blocks run on the real clock: every step happens strictly later than the last -/
+  ccTime : Nat := 0
 
-def step (s : State) (_toks : List String) : State × String := (s, "bad-op")
+def init : State := {}
+
+def optNat (s : String) : Option (Option Nat) :=
+  if s == "-" then some none else s.toNat?.map some
+
+def parseBounds (s : String) : Option Bounds :=
+  match s.splitOn "," with
+  | [a, b, c, d] => do
+    let a ← optNat a; let b ← optNat b; let c ← optNat c; let d ← optNat d
+    pure { posMin := a, posMax := b, negMin := c, negMax := d }
+  | _ => none
+
+def parseCfgTok (cfg : TtlConfig) (tok : String) : Option TtlConfig :=
+  match tok.splitOn ":" with
+  | ["d", b] => do let b ← parseBounds b; pure { cfg with default := b }
+  | [ty, b] => do
+    let ty ← ty.toNat?; let b ← parseBounds b
+    pure { cfg with byType := (ty, b) :: cfg.byType }
+  | _ => none
+
+def parseCfg : TtlConfig → List String → Option TtlConfig
+  | cfg, [] => some cfg
+  | cfg, t :: ts => (parseCfgTok cfg t).bind fun c => parseCfg c ts
+
+def parseQuery (s : String) : Option Query :=
+  match s.splitOn "/" with
+  | [i, ty] => do
+    let i := if i.endsWith "u" then (i.dropEnd 1).toString else i
+    let i ← i.toNat?; let ty ← ty.toNat?
+    pure { id := i, qtype := ty }
+  | _ => none
+
+def parseRec (s : String) : Option Rec :=
+  match s.splitOn ":" with
+  | [a, b, c] => do
+    let a ← a.toNat?; let b ← b.toNat?; let c ← c.toNat?
+    pure { rtype := a, ttl := b, pid := c }
+  | _ => none
+
+def parseRecsSep (sep : String) (s : String) : Option (List Rec) :=
+  if s == "-" || s.isEmpty then some [] else (s.splitOn sep).mapM parseRec
+
+def parseRecs (s : String) : Option (List Rec) := parseRecsSep "," s
+
+def parseOptRecs (s : String) : Option (Option (List Rec)) :=
+  if s == "-" then some none else if s == "e" then some (some []) else (parseRecs s).map some
+
+def parseNsData (s : String) : Option NsData :=
+  match s.splitOn "/" with
+  | [r, g] => do
+    let r ← parseRec r; let g ← parseRecsSep "+" g
+    pure { ns := r, glue := g }
+  | _ => none
+
+def parseOptNs (s : String) : Option (Option (List NsData)) :=
+  if s == "-" then some none else if s == "e" then some (some [])
+  else ((s.splitOn ";").mapM parseNsData).map some
+
+def parseRes : List String → Option Res
+  | ["pos", an, au, ad] => do
+    let an ← parseRecs an; let au ← parseRecs au; let ad ← parseRecs ad
+    pure (.pos { answers := an, authorities := au, additionals := ad })
+  | ["neg", rc, nt, soa, auth, ns] => do
+    let rc ← rc.toNat?; let nt ← optNat nt
+    let soa ← if soa == "-" then some none else (parseRec soa).map some
+    let auth ← parseOptRecs auth; let ns ← parseOptNs ns
+    pure (.neg { negTtl := nt, soa := soa, auth := auth, ns := ns, rcode := rc })
+  | ["err", k] => do let k ← k.toNat?; pure (.other k)
+  | _ => none
+
+def showRec (r : Rec) : String := s!"{r.rtype}:{r.ttl}:{r.pid}"
+
+def showRecsSep (sep : String) (l : List Rec) : String :=
+  if l.isEmpty then "-" else sep.intercalate (l.map showRec)
+
+def showRecs (l : List Rec) : String := showRecsSep "," l
+
+def showOptRecs : Option (List Rec) → String
+  | none => "-"
+  | some [] => "e"
+  | some l => showRecs l
+
+def showNsData (d : NsData) : String :=
+  showRec d.ns ++ "/" ++ (if d.glue.isEmpty then "" else "+".intercalate (d.glue.map showRec))
+
+def showOptNs : Option (List NsData) → String
+  | none => "-"
+  | some [] => "e"
+  | some l => ";".intercalate (l.map showNsData)
+
+def showOptNat : Option Nat → String
+  | none => "-"
+  | some n => toString n
+
+def showRes : Res → String
+  | .pos m => s!"pos {showRecs m.answers} {showRecs m.authorities} {showRecs m.additionals}"
+  | .neg n => s!"neg {n.rcode} {showOptNat n.negTtl} {(n.soa.map showRec).getD "-"} {showOptRecs n.auth} {showOptNs n.ns}"
+  | .other k => s!"other {k}"
+
+def showGet : Option Res → String
+  | none => "none"
+  | some r => showRes r
+
+def doIns (s : State) (q : Query) (r : Res) (t : Nat) : State × String :=
+  match Cache.insert s.cfg s.st q r t with
+  | .ok st' => ({ s with st := st' }, "ok")
+  | .err => (s, "err")
+  | .panic site => (s, "panic " ++ site)
+
+def handle (s : State) (toks : List String) : Option (State × String) :=
+  match toks with
+  | ["begin", "cc"] => pure ({}, "ok")
+  | "begin" :: cfgToks => do
+    let cfg ← parseCfg {} cfgToks
+    pure ({ cfg := cfg, st := [] }, "ok")
+  | "end" :: _ => pure ({}, "ok")
+  | "ins" :: q :: t :: res => do
+    let q ← parseQuery q; let t ← t.toNat?; let r ← parseRes res
+    pure (doIns s q r t)
+  | ["get", q, t] => do
+    let q ← parseQuery q; let t ← t.toNat?
+    pure (s, showGet (Cache.get s.st q t))
+  | ["clear"] => pure ({ s with st := Cache.clear s.st }, "ok")
+  | ["clearq", q] => do
+    let q ← parseQuery q
+    pure ({ s with st := Cache.clearQuery s.st q }, "ok")
+  | "cclookup" :: q :: res => do
+    let q ← parseQuery q; let r ← parseRes res
+    let now := s.ccTime + 1
+    let s := { s with ccTime := now }
+    match Cache.get s.st q now with
+    | some _ => pure (s, "hit")
+    | none =>
+      -- the upstream answers with a response message: `DnsError::from_response` decides what it is
+      let r := match r with
+        | .neg n => match fromResponse { rcode := n.rcode, soa := n.soa.map fun x => (x.ttl, 60) } with
+          | .noRecords nt => Res.neg { n with negTtl := nt }
+          | .rcodeErr c => Res.other c
+          | .ok => Res.other 0
+        | r => r
+      pure ((doIns s q r now).1, "miss")
+  | ["fromresp", rc, tc, ans, mt, soaTtl, minimum] => do
+    let rc ← rc.toNat?; let t ← optNat soaTtl; let m ← minimum.toNat?
+    let r : Resp := { rcode := rc, truncated := tc == "1", answersNonEmpty := ans == "1",
+                      matchAnywhere := mt == "1", soa := t.map fun t => (t, m) }
+    pure (s, match fromResponse r with
+      | .ok => "ok"
+      | .noRecords nt => "neg " ++ showOptNat nt
+      | .rcodeErr c => s!"err {c}")
+  | ["realtime", _] => pure (s, "~")
+  | _ => none
+
+def step (s : State) (toks : List String) : State × String :=
+  (handle s toks).getD (s, "bad-op")
 
 end HickoryVerif.Drv.C15
